@@ -59,6 +59,15 @@ def run(ctx, replay=None):
             c = np.array(case['coords'], float)
             v = np.array(case['values'], float)
             npts, dim = c.shape
+            # degenerate rule-based binning: all distances within the maximum lag identical (numpy widens the zero range by +-0.5)
+            zsig = None
+            try:
+                dd = np.asarray(V.distance, float)
+                mlv = V.maxlag if V.maxlag is not None else dd.max()
+                if case['bin_func'] in vc.AUTO + ['rice'] and len(set(dd[dd <= mlv].tolist())) < 2:
+                    zsig = {'what': 'rule-based-zero-range-edge-exceeds-maxlag'}
+            except Exception:
+                pass
             absml = isinstance(case['maxlag'], float) and case['maxlag'] >= 1
             done = 0
             # 1 reorder points
@@ -118,7 +127,7 @@ def run(ctx, replay=None):
             # 6 coordinate scale s (relative or unset maxlag)
             if not absml and case.get('bins') is None:
                 for s in (2.0, 0.25):
-                    same(ctx, case, 'multiplying the coordinates by s', base, results(dict(case, coords=(c * s).tolist()))[:3], escale=s)
+                    same(ctx, case, 'multiplying the coordinates by s', base, results(dict(case, coords=(c * s).tolist()))[:3], escale=s, sig=zsig)
                 done += 2
             ctx.count('transformations_per_case', done)
             ctx.tests['metamorphic_runs'] = ctx.tests.get('metamorphic_runs', 0) + done
